@@ -77,6 +77,10 @@ def gen_configs(tier, rng):
                  ret_info=rng.random() < 0.8,
                  always_return=rng.random() < 0.2,
                  seed=rng.randrange(10**6))
+        # (drawn from a separate stream: the configurations above stay the
+        # ones earlier rounds were evaluated with)
+        c["prelude"] = random.Random(c["seed"]).choice(
+            [None, None, None, "inplace", "setter"])
         if rng.random() < 0.03:
             c["given"] = "wrongdtype"
         if c["given"] == "none":
